@@ -35,6 +35,23 @@ class D(HasTraits):
 
 
 ATTRS = ("x", "other", "pre_x", "d_x", "q_x", "y", "pre_y", "d_y")
+
+
+class DF(D):
+    """A delegate whose truth value is False (a container-like object that is empty)."""
+
+    def __len__(self):
+        return 0
+
+
+def _dn():
+    from traits.api import ComparisonMode
+    ns = {a: Int(i + 1, comparison_mode=ComparisonMode.none) for i, a in enumerate(ATTRS)}
+    ns["__repr__"] = lambda self: "DN#%s" % self.__dict__.get("_n", "?")
+    return type("DN", (HasTraits,), ns)
+
+
+DN = _dn()          # every target compares by "none": EVERY assignment to it is a change, equal value or not
 # style -> (deferring attribute name, prefix argument, function giving the target name from (class prefix))
 STYLES = {
     "same": ("x", "", lambda cp: "x"),
@@ -48,7 +65,7 @@ KINDS = {"del": DelegatesTo, "proto": PrototypedFrom}
 def build_hop1(kind, style, class_prefix="d_", default_delegate=None, listenable=True):
     name, prefix, tf = STYLES[style]
     # (default_delegate: the delegate is never assigned - it is the trait's own, constant, default object)
-    ns = {"__prefix__": class_prefix, "d": Instance(D, default_delegate) if default_delegate is not None else Instance(HasTraits),
+    ns = {"__prefix__": class_prefix, "d": Instance(type(default_delegate), default_delegate) if default_delegate is not None else Instance(HasTraits),
           name: KINDS[kind]("d", prefix=prefix) if listenable else KINDS[kind]("d", prefix=prefix, listenable=False)}
     if kind == "proto":
         # a SECOND deferring attribute, declared later, for the same delegate and the same target
@@ -104,6 +121,7 @@ def strategy(tier):
         "default_delegate": st.sampled_from([False, False, True]),
         "listenable": st.sampled_from([True, True, True, False]),
         "ctor_local": st.sampled_from([False, False, True]),
+        "delegate_class": st.sampled_from([None, None, "falsy", "none"]),
     })
 
 
@@ -116,7 +134,10 @@ def run(case, ctx):
         dq = Decoy(d=D())
         dq.on_trait_change(lambda: None, dname)
         setattr(dq.d, dtarget, 9)
-    ds = [D(), D(), D()]
+    dcls = {"falsy": DF, "none": DN}.get(case.get("delegate_class"), D)
+    if dcls is not D:
+        ctx.label("delegate-class:" + case["delegate_class"])
+    ds = [dcls(), dcls(), dcls()]
     # listenable=False: reads, writes and deletes behave the same, only target changes are not announced (not judged then)
     listenable = not (case.get("listenable") is False and not case["chain"])
     if not listenable:
@@ -281,7 +302,7 @@ def run(case, ctx):
             d = ds[di]
             old = getattr(d, target)
             setattr(d, target, op[2])
-            exp = 1 if (linked_to(di) and old != op[2]) else 0
+            exp = 1 if (linked_to(di) and (old != op[2] or dcls is DN)) else 0
             if exp:
                 ctx.label("linked-target-change")
             for mech in (("otc", "obs") if listenable else ()):
